@@ -20,11 +20,15 @@ pub struct Case {
     pub sharded: bool,
     pub depth: usize,
     pub checker: bool,
+    /// 0: maintenance does not fire.  1: it fires on an over-full directory (every third entry read since insertion, so
+    /// the pass evicts and re-queues).  2: the same, and .kismet_temp holds a stale file, a young file and a stale
+    /// three-level directory tree (what a writer staging a multi-file value leaves behind when it dies)
+    pub maint: u8,
 }
 
 impl Case {
     fn to_json(&self) -> Value {
-        json!({"scenario": self.scenario, "sharded": self.sharded, "depth": self.depth, "checker": self.checker})
+        json!({"scenario": self.scenario, "sharded": self.sharded, "depth": self.depth, "checker": self.checker, "maint": self.maint})
     }
     fn from_json(v: &Value) -> Case {
         Case {
@@ -32,8 +36,14 @@ impl Case {
             sharded: v["sharded"].as_bool().unwrap(),
             depth: v["depth"].as_u64().unwrap() as usize,
             checker: v["checker"].as_bool().unwrap(),
+            maint: v["maint"].as_u64().unwrap_or(0) as u8,
         }
     }
+}
+
+thread_local! {
+    /// depth of the stale directory tree planted in .kismet_temp by maint == 2 cases
+    static TREE_DEPTH: std::cell::Cell<usize> = const { std::cell::Cell::new(3) };
 }
 
 struct Obs {
@@ -100,6 +110,30 @@ fn observe_with(case: &Case, size: usize, ctl: Option<std::sync::Arc<dyn shim::C
         let p = dirs.reads.last().map(|r| r.join("key")).unwrap_or(wpath.clone());
         world::plant(&p, &a.bytes(), 0o444, old - 120_000_000_000, old);
     }
+    if case.maint > 0 {
+        // every third entry of the write side has been read since insertion
+        for i in (0..size).step_by(3) {
+            let d = if case.sharded { dirs.write.join(ops::shard_dir_name(1 + (i % 2))) } else { dirs.write.clone() };
+            world::set_times(&d.join(format!("e{:05}", i)), old + 5_000_000_000, old);
+        }
+    }
+    if case.maint > 1 {
+        let t = ops::candidate_dirs(&dirs.write, front, &k)[0].join(".kismet_temp");
+        let stale = old;
+        let young = run::base_time_ns() as i128 - 60_000_000_000;
+        world::plant(&t.join("stale_file"), b"debris", 0o600, stale, stale);
+        world::plant(&t.join("young_file"), b"debris", 0o600, young, young);
+        if TREE_DEPTH.with(|d| d.get()) >= 3 {
+            world::plant(&t.join("stale_tree/a/b/f"), b"debris", 0o600, stale, stale);
+            world::plant(&t.join("stale_tree/a/g"), b"debris", 0o600, stale, stale);
+            for d in ["stale_tree/a/b", "stale_tree/a", "stale_tree"] {
+                world::set_times(&t.join(d), stale, stale);
+            }
+        } else {
+            world::plant(&t.join("stale_tree/f"), b"debris", 0o600, stale, stale);
+            world::set_times(&t.join("stale_tree"), stale, stale);
+        }
+    }
     if case.checker || everywhere {
         // an identical copy in every read level (work for the checker; without one, later copies must not even be opened)
         for r in &dirs.reads {
@@ -109,7 +143,7 @@ fn observe_with(case: &Case, size: usize, ctl: Option<std::sync::Arc<dyn shim::C
         }
     }
     let cfg = StackCfg {
-        writer: Some((front, 1usize << 60)),
+        writer: Some((front, if case.maint > 0 { (size / 2).max(3) } else { 1usize << 60 })),
         readers: vec![Front::Plain; case.depth - 1],
         checker: if case.checker { Checker::ByteEq } else { Checker::None },
         auto_sync: true,
@@ -126,8 +160,13 @@ fn observe_with(case: &Case, size: usize, ctl: Option<std::sync::Arc<dyn shim::C
     };
     let fds_before = count_proc_fds();
     shim::set_controller(ctl);
+    let fire = case.maint > 0;
     let (out, trace) = run::as_participant(0, 0, || {
-        run::trigger_never();
+        if fire {
+            run::trigger_fire_next(u64::MAX);
+        } else {
+            run::trigger_never();
+        }
         ops::exec(&cache, &dirs, &op, &Default::default())
     });
     shim::set_controller(None);
@@ -203,9 +242,50 @@ fn observe_with(case: &Case, size: usize, ctl: Option<std::sync::Arc<dyn shim::C
 
 pub fn run_case(case: &Case, rep: &mut Report) -> Vec<(String, String)> {
     let mut bad = Vec::new();
-    let obs: Vec<Obs> = SIZES.iter().map(|&s| observe(case, s)).collect();
+    let sizes: &[usize] = if case.maint > 0 { &[0, 10, 100] } else { &SIZES };
+    let obs: Vec<Obs> = sizes.iter().map(|&s| observe(case, s)).collect();
     rep.transitions += obs.iter().map(|o| o.events as u64).sum::<u64>();
     for (i, o) in obs.iter().enumerate() {
+        if case.maint > 0 {
+            // with maintenance firing the number of calls grows with the directory, by design; the clauses about what is
+            // held open, what stays open and locks apply to every call
+            if o.result.starts_with("err") || o.result.starts_with("panic") {
+                bad.push(("error".into(), format!("operation failed: {}", o.result)));
+            }
+            // "no call holds more than two (three) at once", for the operations the property names; ensure keeps the
+            // file it is populating open across its put's maintenance, one more (outside the stated scope, see DESIGN)
+            let named = matches!(case.scenario.as_str(), "set_new" | "set_existing" | "put_insert" | "set_temp_file");
+            let limit = if case.checker { 3 } else { 2 };
+            if named && o.peak > limit {
+                bad.push(("peak-fds".into(), format!("{} files/directory streams open at once while maintaining {} entries (limit {})", o.peak, sizes[i], limit)));
+            }
+            // constant: what is held open does not grow with the number of entries ...
+            if i > 0 && o.peak > obs[1.min(i)].peak && i > 1 {
+                bad.push(("peak-grows-with-size".into(), format!("{} open at once with {} entries, {} with {}", o.peak, sizes[i], obs[1].peak, sizes[1])));
+            }
+            if o.residual != 0 {
+                bad.push(("fd-leak".into(), format!("{} descriptors still open after the call returned and its result was dropped", o.residual)));
+            }
+            if o.proc_residual != 0 {
+                bad.push(("fd-leak-proc".into(), format!("/proc/self/fd grew by {} across the call", o.proc_residual)));
+            }
+            if o.locks > 0 {
+                bad.push(("lock-taken".into(), format!("{} locking calls", o.locks)));
+            }
+            if case.maint > 1 {
+                // ... nor with the shape of the debris: the same cell with a one-level stale directory instead
+                TREE_DEPTH.with(|d| d.set(1));
+                let flat = observe(case, sizes[i]);
+                TREE_DEPTH.with(|d| d.set(3));
+                if o.peak > flat.peak {
+                    bad.push((
+                        "peak-grows-with-debris".into(),
+                        format!("{} open at once with a three-level stale tree in .kismet_temp, {} with a one-level one ({} entries)", o.peak, flat.peak, sizes[i]),
+                    ));
+                }
+            }
+            continue;
+        }
         if o.counts != obs[0].counts {
             bad.push((
                 "count-depends-on-size".into(),
@@ -293,7 +373,7 @@ fn fault_section(shard: Shard, rep: &mut Report) {
                         continue;
                     }
                 }
-                let case = Case { scenario: sc.to_string(), sharded, depth, checker: false };
+                let case = Case { scenario: sc.to_string(), sharded, depth, checker: false, maint: 0 };
                 let base = observe_with(&case, 10, None);
                 for (k, ev) in base.trace.iter().enumerate() {
                     for a in plausible(ev, false).into_iter().take(2) {
@@ -400,7 +480,10 @@ pub fn run(_tier: Tier, shard: Shard, rep: &mut Report) {
         files + directory streams <= 2 (3 with a checker) from the intercepted open/close stream, nothing left open afterwards \
         (shim fd table and /proc/self/fd), no locking call. Plus, under concurrency: get and touch racing with a set of the same key or with a deleter (all schedules \
         with <= 2 preemptions, entry in the primary or the secondary shard): still at most two open attempts per cache directory, \
-        no listing, no lock. And on error paths: every call of every scenario failing once in turn, nothing may stay open \
+        no listing, no lock. And with maintenance firing on directories of 0, 10 and 100 \
+        entries (over capacity, every third entry read; .kismet_temp also holding a stale file, a young file and a stale three-level directory \
+        tree): nothing left open, no lock, the peak does not grow with the number of entries nor with the depth of the stale tree, \
+        and for set/put and their temp-file variants it stays within 2 (3) (call counts legitimately grow there). And on error paths: every call of every scenario failing once in turn, nothing may stay open \
         afterwards. Every case is non-trivial (4 sizes compared)."
         .into();
     rep.assumptions = vec![
@@ -418,10 +501,30 @@ pub fn run(_tier: Tier, shard: Shard, rep: &mut Report) {
                     if !shard.mine(no) {
                         continue;
                     }
-                    let case = Case { scenario: sc.to_string(), sharded, depth, checker };
+                    let case = Case { scenario: sc.to_string(), sharded, depth, checker, maint: 0 };
                     record(&case, rep);
                     if no % 37 == 0 {
                         rep.sample(case.to_json());
+                    }
+                }
+            }
+        }
+    }
+    // what is held open, left open or locked, with maintenance firing
+    for sc in ["set_new", "set_existing", "put_insert", "ensure_miss", "set_temp_file", "ensure_promote"] {
+        for sharded in [false, true] {
+            for depth in 1..=2usize {
+                for checker in [false, true] {
+                    for maint in [1u8, 2] {
+                        if sc == "ensure_promote" && depth == 1 {
+                            continue;
+                        }
+                        no += 1;
+                        if !shard.mine(no) {
+                            continue;
+                        }
+                        rep.count("maintenance_firing_cells", 1);
+                        record(&Case { scenario: sc.to_string(), sharded, depth, checker, maint }, rep);
                     }
                 }
             }
